@@ -187,6 +187,36 @@ def run(ctx):
                   "references are expanded without the screening pass and its early return on errors dominating the expansion",
                   desc="screening + early return dominate expansion")
 
+    ctx.rule("R8.5", "all passes extract {column} references with the same pattern and flags")
+    reference_regex_agreement(ctx, "R8.5")
+    # placeholder counting happens on a copy with definitions removed and Def-expand groups shrunk
+    ctx.rule("R8.6", "the placeholder count is taken after removing definitions and shrinking Def-expand groups, on a copy")
+    pc = sv.methods.get("_validate_pound_sign_count")
+    if pc is None:
+        raise AnalysisError("anchor SidecarValidator._validate_pound_sign_count vanished")
+    ctx.saw(pc)
+    vpc = view(ctx, pc)
+    counts = [(n, c) for (n, c) in vpc.calls(lambda c: call_name(c) == "count" and c.args and isinstance(c.args[0], ast.Constant)
+                                              and c.args[0].value == "#")]
+    ctx.floor("R8.6", "'#' counts in _validate_pound_sign_count", len(counts), 1)
+    for n, c in counts:
+        names = {x.id for x in ast.walk(c.func.value) if isinstance(x, ast.Name)}
+        ok = False
+        for nm in names:
+            rem = [m for (m, cc) in vpc.calls(lambda cc, nm=nm: call_name(cc) == "remove_definitions" and
+                                              isinstance(cc.func.value, ast.Name) and cc.func.value.id == nm)]
+            shr = [m for (m, cc) in vpc.calls(lambda cc, nm=nm: call_name(cc) == "shrink_defs" and
+                                              isinstance(cc.func.value, ast.Name) and cc.func.value.id == nm)]
+            cop = [m for m in vpc.cfg.nodes if m.kind == "stmt" and isinstance(m.ast, ast.Assign) and
+                   isinstance(m.ast.targets[0], ast.Name) and m.ast.targets[0].id == nm and isinstance(m.ast.value, ast.Call)
+                   and call_name(m.ast.value) in ("deepcopy", "copy")]
+            if rem and shr and cop and all(vpc.dominates(x, n) for x in rem + shr + cop):
+                ok = True
+        ctx.check(ok, "R8.6", pc.qualname, c, loc(pc, c),
+                  "the '#' count is not taken from a copy on which remove_definitions() and shrink_defs() were applied: a "
+                  "valid value column containing `(Def-expand/Name/#, (...#...))` or a Definition is reported as having too "
+                  "many placeholders", desc="'#' counted on a copy without definitions / with Def-expand shrunk")
+
     # ---------------- R8.3
     sc = prog.find_class("Sidecar")
     entry = sc.methods.get("validate")
@@ -204,3 +234,49 @@ def run(ctx):
         funcs.append(ed)
     ctx.floor("R8.4", "functions with push/pop", len(funcs), 5)
     check_balance(ctx, "R8.4", funcs)
+
+
+REF_FUNCS = {"findall": 2, "finditer": 2, "search": 2, "match": 2, "fullmatch": 2, "sub": 3, "split": 2, "compile": 1}
+
+
+def reference_patterns(prog):
+    """Every regular expression in the package that captures a curly-brace column reference:
+    -> [(module, node, inner pattern, frozenset(flag names))]"""
+    out = []
+    for m in prog.modules.values():
+        if not m.name.startswith(("hed.models", "hed.validator", "hed.tools.analysis")):
+            continue
+        for c in ast.walk(m.tree):
+            if not (isinstance(c, ast.Call) and isinstance(c.func, ast.Attribute) and c.func.attr in REF_FUNCS and c.args):
+                continue
+            pat = c.args[0]
+            if not (isinstance(pat, ast.Constant) and isinstance(pat.value, str)):
+                continue
+            txt = pat.value
+            if "{(" not in txt.replace("\\", "") or ")}" not in txt.replace("\\", ""):
+                continue
+            clean = txt.replace("\\{", "{").replace("\\}", "}")
+            inner = clean[clean.index("{(") + 2: clean.rindex(")}")]
+            fl = set()
+            cand = list(c.args[1:]) + [k.value for k in c.keywords if k.arg == "flags"]
+            for f in cand:
+                for x in ast.walk(f):
+                    if isinstance(x, ast.Attribute) and isinstance(x.value, ast.Name) and x.value.id == "re":
+                        fl.add({"I": "IGNORECASE"}.get(x.attr, x.attr))
+            out.append((m, c, inner, frozenset(fl)))
+    return out
+
+
+def reference_regex_agreement(ctx, rule):
+    """All places that extract `{column}` references use the same character class and flags (sibling agreement between
+    the assembler, the screening pass and the expansion pass)."""
+    pats = reference_patterns(ctx.prog)
+    ctx.floor(rule, "curly-brace reference patterns", len(pats), 2)
+    ref = pats[0]
+    for m, c, inner, fl in pats:
+        ctx.count_sites()
+        ctx.check((inner, fl) == (ref[2], ref[3]), rule, m.name, c, "%s:%d" % (m.relpath, c.lineno),
+                  "this pattern extracts column references with character class `%s` and flags %s, but %s:%d uses `%s` with %s: "
+                  "a reference name that one pass recognises (mixed case, a hyphen) is invisible to the other, so it is "
+                  "neither screened nor spliced consistently" % (inner, sorted(fl), ref[0].relpath, ref[1].lineno, ref[2], sorted(ref[3])),
+                  desc="reference pattern `%s` %s agrees with the other passes" % (inner, sorted(fl)))
